@@ -18,24 +18,35 @@ CHECKS = {
    text='Theorems (all byte strings, all alphabet strings, arbitrary hash function) about the Gallina model of base58encode / change_base(58,256) / '
         'addr_base58_to_pubkeyhash / deserialize_address / bech32 polymod, checksum creation and constant selection: Base58 is a bijection between '
         'payloads and alphabet strings, an accepted Base58Check address is exactly the canonical encoding of a 21-byte body with a correct checksum '
-        'and a version byte of the regenerated network table, the Bech32 checksum the encoder appends always verifies and the wrong constant never does. '
+        'and a version byte of the regenerated network table, the Bech32 checksum the encoder appends always verifies and the wrong constant never does; convertbits regroups the bit stream (8->5->8 is the identity for every byte string, pad=False rejects exactly when '
+        '>= frombits bits are left over or the left-over bits are non-zero); lib_bech32_dec(lib_bech32_enc x) = x for every hrp, version 0..16 and program within the '
+        '90-character limit; every accepted Bech32/Bech32m string is (lower-cased) the reference encoding of its decoded content and re-encoding returns it; one '
+        'substituted data-part character or one adjacent transposition is always rejected (syndrome non-zero for any length; never the other constant for length <= 90), '
+        'as are mixed case, over-length and foreign characters. '
         '_bech32_polymod and convertbits are re-translated from the source on every run and proved equal to the model (Glue/Bech32Glue.v). '
         'Tie: differential correspondence on valid strings of every kind and every single-character edit of sampled strings.',
    design_ref='DESIGN.md section 6 C11, section 9',
-   note='Closed under the global context. Not proved: convertbits 8->5->8 round trip and hence the composed bech32 decode(encode) identity, single-error '
-        'detection table; WIF / extended-key / BIP38 acceptance paths are checked by the independent oracle only (rejection of every corrupted '
-        'Base58Check string is probabilistic and is not a theorem). Trusted: Coq kernel, extraction, OCaml driver, harness.',
+   note='Closed under the global context. Bech32 encoder-side theorems are stated for the input convention of pubkeyhash_to_addr_bech32 (bare 20/32/40-byte '
+        'program, else header+program; program lengths 18/30/38 excluded = known finding bech32_enc_header_ambiguity). Not proved (sweeps only): Bech32 '
+        'insertions/deletions, a data character replaced by the separator, errors inside the human-readable part, multi-character errors (the 4-error bound of '
+        'BIP173); WIF / extended-key / BIP38 acceptance paths are checked by the independent oracle only (rejection of every corrupted Base58Check string is '
+        'probabilistic and is not a theorem). Trusted: Coq kernel, extraction, OCaml driver, harness.',
    technique='Coq proof over hand-written + source-translated Gallina model; extracted-model differential correspondence'),
  'C19': dict(
    text='Two interpreters in Gallina: lib_eval mirrors Script.evaluate / class Stack opcode by opcode (dispatch through the regenerated opcode and '
-        'method tables), core_eval transcribes Bitcoin Core EvalScript. 41 per-opcode agreement theorems (all stacks, oracles, flags), '
-        'agree_straightline for all programs over the agreeing opcode set, decode_num = CScriptNum::set_vch, and vm_compute refutation witnesses for '
-        'every deviating opcode (known findings). Tie: exhaustive opcode x small-stack correspondence of lib_eval against the real evaluate, plus random '
-        'programs with nested conditionals; an independent Python EvalScript is the property-level oracle.',
+        'method tables), core_eval transcribes Bitcoin Core EvalScript. 41 per-opcode agreement theorems (all stacks, oracles, flags); agree_straightline for '
+        'all programs over the agreeing opcode set; agree_if_or_crash / agree_if for all well-nested programs with OP_IF/OP_NOTIF/OP_ELSE/OP_ENDIF (at most one '
+        'OP_ELSE per OP_IF, any nesting depth and length); agree_if_missing_endif for never-closed conditionals; never_valid_when_core_rejects_structured; '
+        'standard_spends_agree (P2PKH, P2PK, HTLC with IF/ELSE/CLTV, arbitrary good signatures/keys/hashes/witness); decode_num = CScriptNum::set_vch; vm_compute '
+        'refutation witnesses for every deviating opcode and every excluded conditional shape. Tie: exhaustive opcode x small-stack correspondence of lib_eval '
+        'against the real evaluate, plus random programs with nested conditionals; an independent Python EvalScript is the property-level oracle.',
    design_ref='DESIGN.md section 6 C19, section 9',
-   note='Closed under the global context. agree_if (conditionals) and standard_spends_agree are not theorems (correspondence only). Hash functions and '
-        'signature checking are oracles shared by both models. 14 known-finding classes (several pinned by the existing tests).',
-   technique='Coq proof (per-opcode lemmas + induction over programs) over two Gallina interpreters; exhaustive differential correspondence'),
+   note='Closed under the global context. Conditionals are proved on the class `structured` (leaves of executed AND non-executed branches in the straight-line '
+        'fragment). The only dynamic guard of agree_if is that OP_IF/OP_NOTIF never meets an empty stack (the library raises IndexError there; '
+        'if_crash_only_where_core_fails shows Core rejects in that case, so the safety half needs no guard). Outside the class (correspondence only): second '
+        'OP_ELSE, stray OP_ELSE/OP_ENDIF, disabled/OP_VERIF opcodes in a non-executed branch. Hash functions and signature checking are oracles shared by both '
+        'models (hash outputs assumed good). 14 known-finding classes (several pinned by the existing tests).',
+   technique='Coq proof (per-opcode lemmas + induction over programs and over conditional nesting) over two Gallina interpreters; exhaustive differential correspondence'),
  'C08': dict(
    text='State machine Ledger.v (keys, transactions, spent flags, the wallet balance cache) with step mirroring _balance_update, utxos_update, store, '
         'send, delete, reopen. Theorems: inv_init, inv_step, inv_reachable (every reachable state over guarded histories of any length), '
